@@ -522,6 +522,22 @@ example :
     Spec.declGo 0 none (.bin .mul (.conv .f32 (.flt ⟨1, 10⟩)) (.conv .f32 (.int 3))) = .ok (.flt ⟨5033165, 16777216⟩, .f32) := by
   decide +kernel
 
+/-! ### the difference that is left: the type of a constant shift of a floating-point constant (F03-23) -/
+
+/-- F03-23: the node of a constant shift keeps the untyped floating-point type of its left operand (Go: "if the left
+    operand of a constant shift expression is an untyped constant, the result is an integer constant"): `117.0 << 1`
+    is 234 on both sides but untyped float for the interpreter, so `^(117.0 << 1)` is rejected (Go: −235), while
+    `var c0 = 1.0 << 3` is 8 of type int on both sides because `defaultType` looks at the kind of the value
+    (the decision seed C03-4 moved) -/
+theorem float_shift_type_witness :
+    (evalY Expected.C03.facts { iota := 0 } none (.bin .shl (.flt ⟨117, 1⟩) (.int 1))).bind (fun n => .ok (n.rv, n.ty)) =
+      .ok (.c (.int 234), .u .float) ∧
+    Spec.evalGo 0 (.bin .shl (.flt ⟨117, 1⟩) (.int 1)) = .ok ⟨.int 234, .u .int⟩ ∧
+    evalY Expected.C03.facts { iota := 0 } none (.un .bitNot (.par (.bin .shl (.flt ⟨117, 1⟩) (.int 1)))) = .reject ∧
+    Spec.evalGo 0 (.un .bitNot (.par (.bin .shl (.flt ⟨117, 1⟩) (.int 1)))) = .ok ⟨.int (-235), .u .int⟩ ∧
+    varDeclY Expected.C03.facts none (.bin .shl (.flt ⟨1, 1⟩) (.int 3)) = .ok (.int 8, .i .int) ∧
+    Spec.declGo 0 none (.bin .shl (.flt ⟨1, 1⟩) (.int 3)) = .ok (.int 8, .i .int) := by decide
+
 /-! ### conversion of a constant to float32: one rounding (seed C03-3) -/
 
 /-- **the model's conversion of a constant to float32 is the direct one**: `convertConst` yields the float32 nearest to
